@@ -145,9 +145,12 @@ func (s *promiseStack) pop() *Promise {
 
 func (s *promiseStack) popUntil(p *Promise) {
 	for len(*s) > 0 {
-		if pop := s.pop(); pop == p {
+		if (*s)[len(*s)-1] == p {
+			// Keep p as the barrier for the following cuts of the same clause, with no alternatives left.
+			p.delayed = nil
 			break
 		}
+		s.pop()
 	}
 }
 
